@@ -77,6 +77,7 @@ type Run struct {
 	minDistinct int64
 
 	raceScope       []string
+	autoSamples     int
 	incidentalRaces []string
 }
 
@@ -118,7 +119,7 @@ func Start(level string) *Run {
 		r.Root = "/verif"
 	}
 	r.start = time.Now()
-	r.maxSample = 6
+	r.maxSample = 8
 	r.counters = map[string]int64{}
 	r.extra = map[string]interface{}{}
 	r.known = map[string]finding{}
@@ -223,7 +224,18 @@ func (r *Run) Case(key uint64, nontrivial bool) {
 }
 
 // CaseS is Case with a string key.
-func (r *Run) CaseS(key string, nontrivial bool) { r.Case(Hash64(key), nontrivial) }
+func (r *Run) CaseS(key string, nontrivial bool) {
+	r.Case(Hash64(key), nontrivial)
+	if nontrivial {
+		r.mu.Lock()
+		if r.autoSamples < 2 && len(r.samples) < r.maxSample {
+			// guarantee that the evidence shows at least what a case key looks like
+			r.autoSamples++
+			r.samples = append(r.samples, map[string]interface{}{"case_key": truncate(key, 600)})
+		}
+		r.mu.Unlock()
+	}
+}
 
 // Evals adds n evaluations that carry no distinct key of their own.
 func (r *Run) Evals(n int64) { atomic.AddInt64(&r.evals, n) }
